@@ -22,7 +22,7 @@ META = {
 
 def main(argv):
     c = vcheck.Check("C05", argv)
-    mirrorlib.mirror_check(c, ["C05", "C05Act"], ["c05", "noop"], "C05 authenticity")
+    mirrorlib.mirror_check(c, ["C05", "C05Act"], ["c05", "noop"], "C05 authenticity", templates=[13])  # 13: a previous-commit proof whose second entry mixes an authentic precommit with a junk signature
     # the local validator's own votes and proposals (kernel.go handleStateMachineAction, Properties/C05Act.v): the harness
     # acts as a state machine with a key (a validator, a key outside the set, none) and hands the real mirror timely, late,
     # duplicate and wrongly signed votes; model and implementation are compared step by step and the c05 monitor judges
